@@ -33,6 +33,23 @@ def run_shards(camp, fn: Callable[..., dict[str, Any]], shard_args: list[tuple[A
             camp.merge(r)
 
 
+def map_raw(fn: Callable[..., dict[str, Any]], shard_args: list[tuple[Any, ...]], jobs: int) -> list[dict[str, Any]]:
+    """Like run_shards but returns the raw exports (for two-phase plans); worker errors raise."""
+    if not shard_args:
+        return []
+    jobs = max(1, min(jobs, len(shard_args)))
+    if jobs == 1 or os.environ.get("VERIF_NO_FORK"):
+        results = [_wrap((fn, a)) for a in shard_args]
+    else:
+        ctx = mp.get_context("fork")
+        with ctx.Pool(jobs) as pool:
+            results = pool.map(_wrap, [(fn, a) for a in shard_args], chunksize=1)
+    for r in results:
+        if "__error__" in r:
+            raise RuntimeError("worker failed: " + r["__error__"])
+    return results
+
+
 def split(items: list[Any], n: int) -> list[list[Any]]:
     n = max(1, n)
     out: list[list[Any]] = [[] for _ in range(n)]
